@@ -65,19 +65,21 @@ Proof. vm_compute. split; reflexivity. Qed.
    .Lk with or without a label (any url: the normalisation oracle may reject it), display blocks .Bd/.Ed nested
    to any depth, headers .Ch/.Pt/.Sh/.Ss with any arguments (numbered or not, with inline macros in the title), and
    tables of contents .Tc with any options but -mini (full or summary, numbered or not, titled; -lof/-lot/-lop find no
-   entries in this sub-language), XHTML fragment mode (0) and standalone mode (1: the complete page, whose header leaves
-   html and body open and whose footer closes them).  The output is read by the tag machine of Proofs/Tok.v: it ends in character data with no
+   entries in this sub-language), XHTML fragment mode (0), standalone mode (1: the complete page, whose header leaves
+   html and body open and whose footer closes them) and multi-file mode (2: the index page with its table of contents and
+   one file per part and chapter, each with header, navigation bars and footer; every file written is balanced).  The output is read by the tag machine of Proofs/Tok.v: it ends in character data with no
    element left open, and no closing tag ever mismatched (the machine would be stuck in Bad); the block stack and the
    inline scopes are closed at end of file and before each header; unclosed, mismatched or stray .Ed/.Em lines are
    reported by the model and the output still balances.  The two passes agree: the k-th header of pass 2 finds the
    entry pass 1 recorded for it (Proofs/FragH.v). *)
 Require Tok Inv FragB FragH.
 
-Theorem C02_headers_balanced_partial : forall fuel md wd main bs, md = 0%nat \/ md = 1%nat -> Forall FragH.in_fragH bs ->
+Theorem C02_headers_balanced_partial : forall fuel md wd main bs, md = 0%nat \/ md = 1%nat \/ md = 2%nat -> Forall FragH.in_fragH bs ->
   let s := snd (compile (S fuel) (R "xhtml") md wd main bs) in
   panicked s = None /\
-  Tok.run (flat (wout s)) (Tok.Txt, []) = (Tok.Txt, []) /\ In (curfile s, flat (wout s)) (files s).
-Proof. intros fuel md wd main bs Hm H. destruct (FragH.C02_headers_balanced_modes fuel md wd main bs Hm H) as (A & B & C & _). exact (conj A (conj B C)). Qed.
+  Tok.run (flat (wout s)) (Tok.Txt, []) = (Tok.Txt, []) /\ In (curfile s, flat (wout s)) (files s) /\
+  Forall (fun f => Tok.run (snd f) (Tok.Txt, []) = (Tok.Txt, [])) (files s).
+Proof. intros fuel md wd main bs Hm H. destruct (FragH.C02_headers_balanced_modes fuel md wd main bs Hm H) as (A & B & C & D & _). exact (conj A (conj B (conj C D))). Qed.
 Print Assumptions C02_headers_balanced_partial.
 (* the per-handler steps of the open-element invariant that the lifting uses, for any state (also inside lists etc.) *)
 Theorem C02_text_keeps_invariant : forall base s, @Inv.Inv base s -> Inv.markup_ok (mtags s) -> process s = true -> asis s = false ->
